@@ -75,6 +75,15 @@ func init() {
 			c18GwCase(c, sc)
 			return
 		}
+		if len(a) >= 1 && a[0] == "oa" {
+			sc, err := c18OaParse(a[1:])
+			if err != nil {
+				fmt.Fprintln(os.Stderr, "C18 replay:", err)
+				return
+			}
+			c18OaCase(c, sc)
+			return
+		}
 		if len(a) >= 1 && a[0] == "hist" {
 			h, err := c18HistParse(a[1:])
 			if err != nil {
@@ -1256,6 +1265,10 @@ func runC18(c *ctx) {
 		runC18Gw(c)
 		return
 	}
+	if os.Getenv("C18_ONLY") == "oa" { // debugging aid: the oauth lookup mode alone
+		runC18OAuth(c)
+		return
+	}
 	// ---- corpus: minimised findings first
 	corpus := []string{
 		// fixed 4d834ab: buildBackendOAuth cleared the deny that a malformed auth-url armed
@@ -1409,4 +1422,7 @@ func runC18(c *ctx) {
 
 	// ---- gateway mode: Service annotations through HTTPRoutes, backends reached more than once (c18gw.go)
 	runC18Gw(c)
+
+	// ---- oauth lookup mode: literal paths around the uri prefix, two namespaces (c18oauth.go)
+	runC18OAuth(c)
 }
